@@ -109,17 +109,14 @@ theorem effAfter_setBefore (e : Expr) (b : List Trivia) (na : Bool) : (e.setBefo
 theorem effAfter_addAfter (e : Expr) (ts : List Trivia) : (e.addAfter ts).effAfter false = e.effAfter false ++ ts := by
   cases e <;> simp [Expr.addAfter, Expr.setAfter, Expr.after, Expr.effAfter]
 
-theorem effAfter_notBinding {e : Expr} (h : e.notBinding = true) : e.effAfter false = e.after := by
-  cases e <;> first | rfl | cases h
-
 theorem nfInv_setBefore {e : Expr} (h : e.nfInv) {b : List Trivia} (hb : Alt b) : (e.setBefore b).nfInv := by
   cases e with
   | leaf k t b' a => exact ⟨h.1, hb, h.2.2⟩
   | list v m inn b' a => exact ⟨h.1, h.2.1, hb, h.2.2.2⟩
   | set v m r inn b' a => exact ⟨h.1, h.2.1, hb, h.2.2.2⟩
   | binding n v g b' a => exact ⟨h.1, h.2.1, h.2.2.1, hb, h.2.2.2.2⟩
-  | paren => exact h.elim
-  | app => exact h.elim
+  | paren v lg tg lb tb b' a => exact ⟨h.1, h.2.1, h.2.2.1, hb, h.2.2.2.2⟩
+  | app n x g fa b' a => exact ⟨h.1, h.2.1, h.2.2.1, h.2.2.2.1, hb, h.2.2.2.2.2⟩
 
 theorem nfInv_addAfter {e : Expr} (h : e.nfInv) (hc : closedT (e.effAfter false)) {ts : List Trivia} (hts : Alt ts) :
     (e.addAfter ts).nfInv := by
@@ -132,8 +129,8 @@ theorem nfInv_addAfter {e : Expr} (h : e.nfInv) (hc : closedT (e.effAfter false)
     show Alt (v.after ++ (a ++ ts))
     rw [← List.append_assoc]
     exact alt_append_closed h.2.2.2.2.1 hc hts
-  | paren => exact h.elim
-  | app => exact h.elim
+  | paren v lg tg lb tb b a => exact ⟨h.1, h.2.1, h.2.2.1, h.2.2.2.1, alt_append_closed h.2.2.2.2 hc hts⟩
+  | app n x g fa b a => exact ⟨h.1, h.2.1, h.2.2.1, h.2.2.2.1, h.2.2.2.2.1, alt_append_closed h.2.2.2.2.2 hc hts⟩
 
 theorem closedT_append {a b : List Trivia} (ha : closedT a) (hb : closedT b) : closedT (a ++ b) := by
   rcases hb with h | ⟨c, hc⟩
@@ -447,93 +444,6 @@ theorem parseSeq_prev : (its : Items) → ∀ (m : Mode) (st st' : SeqSt), its.p
 theorem parseSeq_prev_of_content (its : Items) (m : Mode) (st st' : SeqSt) (hp : its.parseSeq m st = .ok st')
     (h : its.isNil = false) : st'.prev ≠ .none := parseSeq_prev its m st st' hp (Or.inl h)
 
-mutual
-theorem cst_nf : (c : Cst) → c.wf = true → c.basic = true → ∀ (e : Expr), c.parse = .ok e →
-    e.nfInv ∧ e.before = [] ∧ e.after = [] ∧ e.notBinding = true
-  | .paren .., _, hbs, _, _ => by simp [Cst.basic] at hbs
-  | .app .., _, hbs, _, _ => by simp [Cst.basic] at hbs
-  | .leaf k t, hwf, _, e, hp => by
-    have hspec := leaf_spec (k := k) (t := t) hwf
-    simp only [Cst.parse] at hp
-    rw [hspec.1] at hp; injection hp with hp; subst hp
-    exact ⟨⟨leafOk_ne_semi hwf, trivial, trivial⟩, rfl, rfl, rfl⟩
-  | .list its cg, hwf, hbs, e, hp => by
-    simp only [Cst.wf, Bool.and_eq_true] at hwf
-    simp only [Cst.parse] at hp
-    cases hps : its.parseSeq .list { before := openBefore its } with
-    | error err => rw [hps] at hp; cases hp
-    | ok st' =>
-      rw [hps] at hp; injection hp with hp; subst hp
-      have hst := items_nf its .list cg _ st' hwf.1 (by simpa [Cst.basic] using hbs) hps (stN_init its)
-      have hf := finishSeq_nf hst (some cg) (!its.isNil) (fun h =>
-        parseSeq_prev_of_content its _ _ st' hps (by simpa using h))
-      exact ⟨⟨hf.1, alt_emptyInner hf.2.2.1 _, trivial, trivial, hf.2.1⟩, rfl, rfl, rfl⟩
-  | .set isRec rg its cg, hwf, hbs, e, hp => by
-    simp only [Cst.wf, Bool.and_eq_true] at hwf
-    simp only [Cst.parse] at hp
-    cases hps : its.parseSeq .set { before := openBefore its } with
-    | error err => rw [hps] at hp; cases hp
-    | ok st' =>
-      rw [hps] at hp; injection hp with hp; subst hp
-      have hst := items_nf its .set cg _ st' hwf.1.2 (by simpa [Cst.basic] using hbs) hps (stN_init its)
-      have hf := finishSeq_nf hst (some cg) (!its.isNil) (fun h =>
-        parseSeq_prev_of_content its _ _ st' hps (by simpa using h))
-      exact ⟨⟨hf.1, alt_emptyInner hf.2.2.1 _, trivial, trivial, hf.2.1⟩, rfl, rfl, rfl⟩
-theorem items_nf : (its : Items) → ∀ (m : Mode) (cg : Text) (st st' : SeqSt), its.wf m cg = true →
-    its.basic = true → its.parseSeq m st = .ok st' → StN st → StN st'
-  | .nil, m, cg, st, st', _, _, hp, h => by
-    simp only [Items.parseSeq] at hp; injection hp with hp; subst hp; exact h
-  | .cmt g t rest, m, cg, st, st', hwf, hbs, hp, h => by
-    simp only [Items.wf, Bool.and_eq_true] at hwf
-    simp only [Items.parseSeq] at hp
-    exact items_nf rest m cg _ st' hwf.2 (by simpa [Items.basic] using hbs) hp (seqComment_nf m h g t)
-  | .elem g c rest, m, cg, st, st', hwf, hbs, hp, h => by
-    simp only [Items.wf, Bool.and_eq_true] at hwf
-    simp only [Items.basic, Bool.and_eq_true] at hbs
-    simp only [Items.parseSeq] at hp
-    cases hpe : c.parse with
-    | error err => rw [hpe] at hp; cases hp
-    | ok e =>
-      rw [hpe] at hp
-      obtain ⟨hen, heb, hea, henb⟩ := cst_nf c hwf.1.2 hbs.1 e hpe
-      have hnew : ∀ e', e' = e.setBefore (pushGap st g) →
-          StN { items := st.items ++ [e'], before := [], prev := .item } := by
-        intro e' he'; subst he'
-        refine ⟨allNfInv_append h.1 ⟨nfInv_setBefore hen (pushGap_alt h g), trivial⟩,
-          allClosed_append h.2.1 ⟨by rw [effAfter_setBefore, effAfter_notBinding henb, hea]; exact closedT_nil, trivial⟩,
-          trivial, fun _ => closedT_nil, fun e => by cases e⟩
-      cases m with
-      | set => cases hp
-      | file =>
-        simp only at hp
-        exact items_nf rest .file cg _ st' hwf.2 hbs.2 hp (hnew _ (by rw [heb, List.append_nil]))
-      | paren =>
-        simp only at hp
-        exact items_nf rest .paren cg _ st' hwf.2 hbs.2 hp (hnew _ (by rw [heb, List.append_nil]))
-      | list =>
-        simp only at hp
-        exact items_nf rest .list cg _ st' hwf.2 hbs.2 hp (hnew _ rfl)
-  | .bind g n c1 g1 c2 g2 v c3 g3 rest, m, cg, st, st', hwf, hbs, hp, h => by
-    simp only [Items.basic, Bool.and_eq_true] at hbs
-    simp only [Items.wf, Bool.and_eq_true, beq_iff_eq] at hwf
-    obtain ⟨⟨⟨⟨⟨⟨⟨⟨⟨⟨hm, _⟩, hn⟩, _⟩, _⟩, _⟩, _⟩, hv⟩, _⟩, _⟩, hrest⟩ := hwf
-    subst hm
-    simp only [Items.parseSeq] at hp
-    cases hpv : v.parse with
-    | error err => rw [hpv] at hp; cases hp
-    | ok ve =>
-      rw [hpv] at hp; simp only at hp
-      obtain ⟨hven, hvb, hva, hvnb⟩ := cst_nf v hv hbs.1 ve hpv
-      cases hb : bindingFromCst n c1 c2 g2 ve c3 (pushGap st g) with
-      | error err => rw [hb] at hp; cases hp
-      | ok b =>
-        rw [hb] at hp; simp only at hp
-        have hbn := binding_nf hn hb hven hvb hva hvnb (pushGap_alt h g)
-        exact items_nf rest .set cg _ st' hrest hbs.2 hp
-          ⟨allNfInv_append h.1 ⟨hbn.1, trivial⟩, allClosed_append h.2.1 ⟨hbn.2, trivial⟩, trivial,
-            fun _ => closedT_nil, fun e => by cases e⟩
-end
-
 /-! ### top level: nothing in front of the first token -/
 
 def headBeforeOk : List Expr → Prop
@@ -575,14 +485,14 @@ theorem modifyLast_ne_nil {α : Type} (f : α → α) {l : List α} (h : l ≠ [
   | nil => exact h rfl
   | cons _ _ => cases this
 
-theorem items_head : (its : Items) → ∀ (cg : Text) (st st' : SeqSt), its.wf .file cg = true →
-    its.parseSeq .file st = .ok st' → HeadInv st → HeadInv st'
-  | .nil, cg, st, st', _, hp, h => by
+theorem items_head : (its : Items) → ∀ (m : Mode) (cg : Text) (st st' : SeqSt), (m = .file ∨ m = .paren) →
+    its.wf m cg = true → its.parseSeq m st = .ok st' → HeadInv st → HeadInv st'
+  | .nil, m, cg, st, st', _, _, hp, h => by
     simp only [Items.parseSeq] at hp; injection hp with hp; subst hp; exact h
-  | .cmt g t rest, cg, st, st', hwf, hp, h => by
+  | .cmt g t rest, m, cg, st, st', hm, hwf, hp, h => by
     simp only [Items.wf, Bool.and_eq_true] at hwf
     simp only [Items.parseSeq] at hp
-    refine items_head rest cg _ st' hwf.2 hp ?_
+    refine items_head rest m cg _ st' hm hwf.2 hp ?_
     unfold seqComment
     split
     · rename_i hin
@@ -597,17 +507,22 @@ theorem items_head : (its : Items) → ∀ (cg : Text) (st st' : SeqSt), its.wf 
         have : (st.prev == Prev.none) = false := by simpa using hp1
         simp only [this, Bool.false_eq_true, if_false]
         exact headCmt_append (headCmt_appendGap hb1 _ _) _
-  | .elem g c rest, cg, st, st', hwf, hp, h => by
+  | .elem g c rest, m, cg, st, st', hm, hwf, hp, h => by
     simp only [Items.wf, Bool.and_eq_true] at hwf
     simp only [Items.parseSeq] at hp
     cases hpe : c.parse with
     | error err => rw [hpe] at hp; cases hp
     | ok e =>
-      rw [hpe] at hp; simp only at hp
+      rw [hpe] at hp
       have heb : e.before = [] := by
         obtain ⟨e', hpe', _, heb', _, _⟩ := cst_parse_spec false c hwf.1.2 (fun h => by cases h)
         rw [hpe] at hpe'; injection hpe' with h'; subst h'; exact heb'
-      refine items_head rest cg _ st' hwf.2 hp ⟨fun he => by simp at he, ?_⟩
+      suffices key : headBeforeOk (st.items ++ [e.setBefore (pushGap st g ++ e.before)]) by
+        rcases hm with rfl | rfl
+        · simp only at hp
+          exact items_head rest .file cg _ st' (Or.inl rfl) hwf.2 hp ⟨fun he => by simp at he, key⟩
+        · simp only at hp
+          exact items_head rest .paren cg _ st' (Or.inr rfl) hwf.2 hp ⟨fun he => by simp at he, key⟩
       by_cases hi : st.items = []
       · rw [hi]
         simp only [List.nil_append, headBeforeOk, before_setBefore]
@@ -621,11 +536,172 @@ theorem items_head : (its : Items) → ∀ (cg : Text) (st st' : SeqSt), its.wf 
           simp only [this, Bool.false_eq_true, if_false]
           exact headCmt_append (headCmt_appendGap hb1 _ _) _
       · exact headBeforeOk_append hi h.2 _
-  | .bind g n c1 g1 c2 g2 v c3 g3 rest, cg, st, st', _, hp, _ => by
+  | .bind g n c1 g1 c2 g2 v c3 g3 rest, m, cg, st, st', hm, _, hp, _ => by
     simp only [Items.parseSeq] at hp
     cases hpv : v.parse with
     | error err => rw [hpv] at hp; cases hp
-    | ok ve => rw [hpv] at hp; cases hp
+    | ok ve => rw [hpv] at hp; rcases hm with rfl | rfl <;> cases hp
+
+theorem finishSeq_none_head (st : SeqSt) (hc : Bool) (h : headBeforeOk st.items) :
+    headBeforeOk (finishSeq st none hc).1 := by
+  unfold finishSeq
+  by_cases hb : st.before.isEmpty = true
+  · simp only [hb, if_true]; exact h
+  · by_cases hi : st.items.isEmpty = true
+    · simp only [hb, hi, if_true, Bool.false_eq_true, if_false]; trivial
+    · simp only [hb, hi, Bool.false_eq_true, if_false]; exact headBeforeOk_modifyLast _ h
+
+theorem leadE_of_head {ts : List Trivia} (h : ts = [] ∨ headCmt ts) : leadE ts = 0 := by
+  rcases h with h | h
+  · subst h; rfl
+  · cases ts with
+    | nil => rfl
+    | cons t r => cases t <;> simp [headCmt] at h <;> rfl
+
+theorem alt_appBeforeArg (sp : AppSplit) (g : Text) : Alt (appBeforeArg sp g) := by
+  unfold appBeforeArg
+  split
+  · trivial
+  · have h := gcTrivia_alt sp.rest [] trivial closedT_nil
+    split
+    · exact alt_append_single h.1 _ (Or.inl h.2)
+    · simpa using h.1
+
+/-- `FunctionCall.from_cst`: the layout invariants -/
+theorem app_nf {fe ae : Expr} (cs : GC) (g : Text) (hf : fe.nfInv) (hfb : fe.before = []) (ha : ae.nfInv)
+    (hab : ae.before = []) : (appFromCst fe ae cs g).nfInv := by
+  unfold appFromCst
+  simp only [hab, List.append_nil]
+  have halt := alt_appBeforeArg (appSplit cs true true []) g
+  refine ⟨hf, nfInv_setBefore ha ?_, hfb, fun hon => ?_, trivial, trivial⟩
+  · split
+    · exact alt_dropWhile _ halt
+    · exact halt
+  · simp only [hon, if_true, before_setBefore]
+    exact leadE_dropWhile _
+
+
+mutual
+theorem cst_nf : (c : Cst) → c.wf = true → ∀ (e : Expr), c.parse = .ok e →
+    e.nfInv ∧ e.before = [] ∧ e.after = [] ∧ e.notBinding = true
+  | .paren its cg, hwf, e, hp => by
+    simp only [Cst.wf, Bool.and_eq_true, beq_iff_eq] at hwf
+    simp only [Cst.parse] at hp
+    cases hps : its.parseSeq .paren {} with
+    | error err => rw [hps] at hp; cases hp
+    | ok st' =>
+      rw [hps] at hp
+      simp only at hp
+      have hst : StN st' := items_nf its .paren cg {} st' hwf.1.1 hps
+        ⟨trivial, trivial, trivial, fun h => absurd rfl h, fun _ => ⟨Or.inl rfl, rfl⟩⟩
+      have hhd : HeadInv st' := items_head its .paren cg {} st' (Or.inr rfl) hwf.1.1 hps
+        ⟨fun _ => Or.inl ⟨rfl, rfl⟩, trivial⟩
+      have hf := finishSeq_nf hst none (!its.isNil) (fun h =>
+        parseSeq_prev_of_content its _ _ st' hps (by simpa using h))
+      have hh := finishSeq_none_head st' (!its.isNil) hhd.2
+      cases hr : (finishSeq st' none (!its.isNil)).1 with
+      | nil => rw [hr] at hp; cases hp
+      | cons v tl =>
+        cases tl with
+        | cons w tl' => rw [hr] at hp; cases hp
+        | nil =>
+          rw [hr] at hp hf hh
+          injection hp with hp; subst hp
+          exact ⟨⟨hf.1.1, (hf.2.2.2 rfl).1, leadE_of_head hh, trivial, trivial⟩, rfl, rfl, rfl⟩
+  | .app f cs g a, hwf, e, hp => by
+    simp only [Cst.wf, Bool.and_eq_true] at hwf
+    obtain ⟨⟨⟨hfw, _⟩, _⟩, haw⟩ := hwf
+    simp only [Cst.parse] at hp
+    cases hpf : f.parse with
+    | error err => rw [hpf] at hp; cases hp
+    | ok fe =>
+      rw [hpf] at hp
+      cases hpa : a.parse with
+      | error err => rw [hpa] at hp; cases hp
+      | ok ae =>
+        rw [hpa] at hp; injection hp with hp; subst hp
+        obtain ⟨hfn, hfb, _, _⟩ := cst_nf f hfw fe hpf
+        obtain ⟨han, hab, _, _⟩ := cst_nf a haw ae hpa
+        exact ⟨app_nf cs g hfn hfb han hab, rfl, rfl, rfl⟩
+  | .leaf k t, hwf, e, hp => by
+    have hspec := leaf_spec (k := k) (t := t) hwf
+    simp only [Cst.parse] at hp
+    rw [hspec.1] at hp; injection hp with hp; subst hp
+    exact ⟨⟨leafOk_ne_semi hwf, trivial, trivial⟩, rfl, rfl, rfl⟩
+  | .list its cg, hwf, e, hp => by
+    simp only [Cst.wf, Bool.and_eq_true] at hwf
+    simp only [Cst.parse] at hp
+    cases hps : its.parseSeq .list { before := openBefore its } with
+    | error err => rw [hps] at hp; cases hp
+    | ok st' =>
+      rw [hps] at hp; injection hp with hp; subst hp
+      have hst := items_nf its .list cg _ st' hwf.1 hps (stN_init its)
+      have hf := finishSeq_nf hst (some cg) (!its.isNil) (fun h =>
+        parseSeq_prev_of_content its _ _ st' hps (by simpa using h))
+      exact ⟨⟨hf.1, alt_emptyInner hf.2.2.1 _, trivial, trivial, hf.2.1⟩, rfl, rfl, rfl⟩
+  | .set isRec rg its cg, hwf, e, hp => by
+    simp only [Cst.wf, Bool.and_eq_true] at hwf
+    simp only [Cst.parse] at hp
+    cases hps : its.parseSeq .set { before := openBefore its } with
+    | error err => rw [hps] at hp; cases hp
+    | ok st' =>
+      rw [hps] at hp; injection hp with hp; subst hp
+      have hst := items_nf its .set cg _ st' hwf.1.2 hps (stN_init its)
+      have hf := finishSeq_nf hst (some cg) (!its.isNil) (fun h =>
+        parseSeq_prev_of_content its _ _ st' hps (by simpa using h))
+      exact ⟨⟨hf.1, alt_emptyInner hf.2.2.1 _, trivial, trivial, hf.2.1⟩, rfl, rfl, rfl⟩
+theorem items_nf : (its : Items) → ∀ (m : Mode) (cg : Text) (st st' : SeqSt), its.wf m cg = true →
+    its.parseSeq m st = .ok st' → StN st → StN st'
+  | .nil, m, cg, st, st', _, hp, h => by
+    simp only [Items.parseSeq] at hp; injection hp with hp; subst hp; exact h
+  | .cmt g t rest, m, cg, st, st', hwf, hp, h => by
+    simp only [Items.wf, Bool.and_eq_true] at hwf
+    simp only [Items.parseSeq] at hp
+    exact items_nf rest m cg _ st' hwf.2 hp (seqComment_nf m h g t)
+  | .elem g c rest, m, cg, st, st', hwf, hp, h => by
+    simp only [Items.wf, Bool.and_eq_true] at hwf
+    simp only [Items.parseSeq] at hp
+    cases hpe : c.parse with
+    | error err => rw [hpe] at hp; cases hp
+    | ok e =>
+      rw [hpe] at hp
+      obtain ⟨hen, heb, hea, henb⟩ := cst_nf c hwf.1.2 e hpe
+      have hnew : ∀ e', e' = e.setBefore (pushGap st g) →
+          StN { items := st.items ++ [e'], before := [], prev := .item } := by
+        intro e' he'; subst he'
+        refine ⟨allNfInv_append h.1 ⟨nfInv_setBefore hen (pushGap_alt h g), trivial⟩,
+          allClosed_append h.2.1 ⟨by rw [effAfter_setBefore, effAfter_notBinding henb, hea]; exact closedT_nil, trivial⟩,
+          trivial, fun _ => closedT_nil, fun e => by cases e⟩
+      cases m with
+      | set => cases hp
+      | file =>
+        simp only at hp
+        exact items_nf rest .file cg _ st' hwf.2 hp (hnew _ (by rw [heb, List.append_nil]))
+      | paren =>
+        simp only at hp
+        exact items_nf rest .paren cg _ st' hwf.2 hp (hnew _ (by rw [heb, List.append_nil]))
+      | list =>
+        simp only at hp
+        exact items_nf rest .list cg _ st' hwf.2 hp (hnew _ rfl)
+  | .bind g n c1 g1 c2 g2 v c3 g3 rest, m, cg, st, st', hwf, hp, h => by
+    simp only [Items.wf, Bool.and_eq_true, beq_iff_eq] at hwf
+    obtain ⟨⟨⟨⟨⟨⟨⟨⟨⟨⟨hm, _⟩, hn⟩, _⟩, _⟩, _⟩, _⟩, hv⟩, _⟩, _⟩, hrest⟩ := hwf
+    subst hm
+    simp only [Items.parseSeq] at hp
+    cases hpv : v.parse with
+    | error err => rw [hpv] at hp; cases hp
+    | ok ve =>
+      rw [hpv] at hp; simp only at hp
+      obtain ⟨hven, hvb, hva, hvnb⟩ := cst_nf v hv ve hpv
+      cases hb : bindingFromCst n c1 c2 g2 ve c3 (pushGap st g) with
+      | error err => rw [hb] at hp; cases hp
+      | ok b =>
+        rw [hb] at hp; simp only at hp
+        have hbn := binding_nf hn hb hven hvb hva hvnb (pushGap_alt h g)
+        exact items_nf rest .set cg _ st' hrest hp
+          ⟨allNfInv_append h.1 ⟨hbn.1, trivial⟩, allClosed_append h.2.1 ⟨hbn.2, trivial⟩, trivial,
+            fun _ => closedT_nil, fun e => by cases e⟩
+end
 
 /-! ### the whole file -/
 
@@ -639,11 +715,11 @@ theorem trailing_cases (g : Text) :
 
 /-- the rendered file: one expression whose leading whitespace is empty and whose trailing trivia
     is closed, then the end-of-file marker -/
-theorem srcRebuildP_nf (s : Src) (e : Expr) (he : s.exprs = [e]) (hok : e.ok) (hinv : e.nfInv)
+theorem srcRebuildP_nf (s : Src) (e : Expr) (he : s.exprs = [e]) (hok : e.ok) (hml : e.mlSafe) (hinv : e.nfInv)
     (hclean : e.inlineClean) (hhead : e.before = [] ∨ headCmt e.before) (hcl : closedT (e.effAfter false))
     (htr : s.trailing = [] ∨ s.trailing = [.emptyLine] ∨ s.trailing = [.linebreak]) :
     (summ s.rebuildP).fileOk = true := by
-  obtain ⟨l, f, t, hs, _, _, _, c1, c2, c3⟩ := rebuildAP_summ e hok hinv hclean false 0 false
+  obtain ⟨l, f, t, hs, _, _, _, c1, c2, c3, _⟩ := rebuildAP_summ e hok hml hinv hclean false 0 false
   have hl : l = [] := by
     rcases hhead with h | h
     · rw [c1 h]; rfl
@@ -679,7 +755,7 @@ theorem srcRebuildP_nf (s : Src) (e : Expr) (he : s.exprs = [e]) (hok : e.ok) (h
     rw [summ_append, hr, summ_ws]; rfl
 
 /-- SPACING NORMAL FORM of the whole round trip -/
-theorem file_nf (f : File) (s : Src) (hwf : f.wf = true) (hbasic : f.basic = true) (hp : f.parse = .ok s)
+theorem file_nf (f : File) (s : Src) (hwf : f.wf = true) (hp : f.parse = .ok s)
     (hclean : ∀ e ∈ s.exprs, e.inlineClean) : (summ s.rebuildP).fileOk = true := by
   obtain ⟨s', hp', hok, _⟩ := file_parse_spec false f hwf (fun h => by cases h)
   rw [hp] at hp'; injection hp' with hs; subst hs
@@ -692,10 +768,12 @@ theorem file_nf (f : File) (s : Src) (hwf : f.wf = true) (hbasic : f.basic = tru
     rw [hps] at hp
     injection hp with hp
     have hcount := items_parse_count f.items .file {} st' hps (Or.inl rfl)
-    have hst : StN st' := items_nf f.items .file f.endGap {} st' hwf'.1.1 hbasic hps
+    have hst : StN st' := items_nf f.items .file f.endGap {} st' hwf'.1.1 hps
       ⟨trivial, trivial, trivial, fun h => absurd rfl h, fun _ => ⟨Or.inl rfl, rfl⟩⟩
-    have hhd : HeadInv st' := items_head f.items f.endGap {} st' hwf'.1.1 hps
+    have hhd : HeadInv st' := items_head f.items .file f.endGap {} st' (Or.inl rfl) hwf'.1.1 hps
       ⟨fun _ => Or.inl ⟨rfl, rfl⟩, trivial⟩
+    have hinv := items_parse_inv f.items .file f.endGap {} st' hwf'.1.1 hps trivial
+    have hfml := finishSeq_inv st' none (!f.items.isNil) hinv.1
     have hf := finishSeq_nf hst none (!f.items.isNil) (fun h =>
       parseSeq_prev_of_content f.items _ _ st' hps (by simpa using h))
     have hlen := finishSeq_length st' none (!f.items.isNil)
@@ -730,7 +808,9 @@ theorem file_nf (f : File) (s : Src) (hwf : f.wf = true) (hbasic : f.basic = tru
       have hclo := hf.2.2.2 rfl; rw [← hex, hse] at hclo
       have hhb := hheadfin; rw [← hex, hse] at hhb
       have heok : e.ok := by have := hok.1; rw [hse] at this; exact this.1
-      refine srcRebuildP_nf s e hse heok hall.1 (hclean e (by rw [hse]; simp)) hhb hclo.1 ?_
+      have hml : e.mlSafe := by
+        have := hfml.1; rw [← hex, hse] at this; exact this.1
+      refine srcRebuildP_nf s e hse heok hml hall.1 (hclean e (by rw [hse]; simp)) hhb hclo.1 ?_
       rw [htrail, hinner]; exact trailing_cases _
 
 /-! meaning of the summary -/
@@ -828,6 +908,18 @@ theorem inlineClean_of_B : (e : Expr) → e.inlineCleanB = true → e.inlineClea
     · rw [hml] at h1; cases h1
     · exact allFlat_of_B h1
   | .binding _ v _ _ _, h => inlineClean_of_B v h
+  | .paren v lg _ _ _ _ _, h => by
+    simp only [Expr.inlineCleanB, Bool.and_eq_true, Bool.or_eq_true, List.isEmpty_iff] at h
+    refine ⟨fun hon => ?_, inlineClean_of_B v h.2⟩
+    rcases h.1 with h1 | h1
+    · rw [hon] at h1; cases h1
+    · exact h1
+  | .app n x g _ _ _, h => by
+    simp only [Expr.inlineCleanB, Bool.and_eq_true, Bool.or_eq_true, List.isEmpty_iff] at h
+    refine ⟨fun hon => ?_, inlineClean_of_B n h.1.2, inlineClean_of_B x h.2⟩
+    rcases h.1.1 with h1 | h1
+    · rw [hon] at h1; cases h1
+    · exact h1
 theorem allInlineClean_of_B : (es : List Expr) → allInlineCleanB es = true → allInlineClean es
   | [], _ => trivial
   | e :: rest, h => by
